@@ -26,85 +26,88 @@ def run(ctx):
     ctx.assumptions += ['naga itself (lexer, parser, validator, diagnostic rendering) is outside the claim: its behaviour on corrupted text cannot be encoded; '
                         'a corpus of corruptions is run through the real build each run as a supplement only']
     ctx.bounds = {'gates': 'parser ok/err x validation off / on with ANY capability bits x validator ok/err'}
-    logs = []
+    # the gates are explored under two option sets: validation must only gate whatever else is switched on
+    for label_, derive in (('defaults', {}), ('all-derives', {'derive_bytemuck_vertex': True, 'derive_bytemuck_host_shareable': True, 'derive_serde': True,
+                                                             'matrix_vector_types': 'Glam'})):
+        logs = []
 
-    def go(it):
-        log = {}
-        logs.append(log)
+        def go(it):
+            log = {}
+            logs.append(log)
 
-        def parse_str(it_, s):
-            log['parse_arg'] = s
-            okv = it_.truth(it_.fresh('parser_accepts', 'bool'))
-            log['parse_ok'] = okv
-            return ok(module) if okv else err(E1)
+            def parse_str(it_, s):
+                log['parse_arg'] = s
+                okv = it_.truth(it_.fresh('parser_accepts', 'bool'))
+                log['parse_ok'] = okv
+                return ok(module) if okv else err(E1)
 
-        def validate(it_, v, m):
-            log['validator'] = v
-            log['validated'] = m
-            okv = it_.truth(it_.fresh('validator_accepts', 'bool'))
-            log['valid_ok'] = okv
-            return ok(Opaque('ModuleInfo')) if okv else err(E2)
-        it.env['parse_str'], it.env['validate'] = parse_str, validate
-        vo = Agg('Option', {'Some': [Agg('ValidationOptions', [Agg('Capabilities', [Agg('InternalBitFlags', [caps])])])], 'None': []},
-                 disc=z3.If(validate_on, z3.BitVecVal(1, 64), z3.BitVecVal(0, 64)))
-        return it.call('create_shader_module_inner', [src, none(), write_options(S.conv, validate=vo)])
-    res = ctx.explore('create_shader_module_inner/gates', go, anchors=['create_shader_module_inner'])
-    ok_tokens = []
-    flags_all = 0
-    for v in S.schema['bitflags']['ValidationFlags']['flags'].values():
-        flags_all |= v or 0
-    for (pc, kind, out, calls), log in zip(res, logs):
-        ctx.queries['discharged'] += 1
-        m = ctx.witness(pc)
-        von = model_value(m, validate_on)
-        problems = []
-        if kind == 'panic':
-            problems.append(f'panics: {out}')
-        elif not log.get('parse_ok'):
-            if not (out.disc == 1 and out.fields[0].variant == 'ParseError' and out.fields[0].fields[0] is E1):
-                problems.append(f'parser error is returned as {out}')
-            if 'validator' in log or any(f in calls for f in GEN_FUNCS):
-                problems.append('work continues after the parser failed')
-        else:
-            if von != ('validator' in log):
-                problems.append(f'validation {"skipped although requested" if von else "run although not requested"}')
-            if 'validator' in log:
-                v = log['validator']
-                from mirsym.schema import flag_bits
-                fl, cp = flag_bits(v.fields[0]), flag_bits(v.fields[1])
-                if not (fl == flags_all and cp is caps) or deref(log['validated']) is not module:
-                    problems.append(f'validator built with flags {fl} / capabilities {cp} on {type(deref(log["validated"])).__name__}')
-            if 'validator' in log and not log.get('valid_ok'):
-                if not (out.disc == 1 and out.fields[0].variant == 'ValidationError' and out.fields[0].fields[0] is E2):
-                    problems.append(f'validation error is returned as {out}')
-                if any(f in calls for f in GEN_FUNCS):
-                    problems.append('generation runs although validation failed')
-            else:
-                if out.disc != 0:
-                    problems.append(f'accepted module returns {out}')
-                else:
-                    ok_tokens.append((von, T.canon(out.fields[0].toks), pc))
-        if not (log.get('parse_arg') == src):
-            problems.append(f'parser was handed {log.get("parse_arg")!r} instead of the source text')
-        if problems:
-            ctx.queries['sat'] += 1
-            rep, det = native(ctx, src_text)
-            ctx.report('C17/' + problems[0].split(':')[0][:40], '; '.join(problems) + f' (validate={von})', det, rep, det)
-        else:
-            ctx.queries['unsat'] += 1
-    # validation only gates: identical tokens with validation off / on (any capabilities)
-    if ok_tokens:
-        ref = ok_tokens[0][1]
-        if {v for v, _, _ in ok_tokens} != {True, False}:
-            raise Inconclusive('did not explore both validation settings on the accepting path')
-        for von, tk, pc in ok_tokens[1:]:
+            def validate(it_, v, m):
+                log['validator'] = v
+                log['validated'] = m
+                okv = it_.truth(it_.fresh('validator_accepts', 'bool'))
+                log['valid_ok'] = okv
+                return ok(Opaque('ModuleInfo')) if okv else err(E2)
+            it.env['parse_str'], it.env['validate'] = parse_str, validate
+            vo = Agg('Option', {'Some': [Agg('ValidationOptions', [Agg('Capabilities', [Agg('InternalBitFlags', [caps])])])], 'None': []},
+                     disc=z3.If(validate_on, z3.BitVecVal(1, 64), z3.BitVecVal(0, 64)))
+            return it.call('create_shader_module_inner', [src, none(), write_options(S.conv, validate=vo, **derive)])
+        res = ctx.explore(f'create_shader_module_inner/gates/{label_}', go, anchors=['create_shader_module_inner'])
+        ok_tokens = []
+        flags_all = 0
+        for v in S.schema['bitflags']['ValidationFlags']['flags'].values():
+            flags_all |= v or 0
+        for (pc, kind, out, calls), log in zip(res, logs):
             ctx.queries['discharged'] += 1
-            if tk != ref:
+            m = ctx.witness(pc)
+            von = model_value(m, validate_on)
+            problems = []
+            if kind == 'panic':
+                problems.append(f'panics: {out}')
+            elif not log.get('parse_ok'):
+                if not (out.disc == 1 and out.fields[0].variant == 'ParseError' and out.fields[0].fields[0] is E1):
+                    problems.append(f'parser error is returned as {out}')
+                if 'validator' in log or any(f in calls for f in GEN_FUNCS):
+                    problems.append('work continues after the parser failed')
+            else:
+                if von != ('validator' in log):
+                    problems.append(f'validation {"skipped although requested" if von else "run although not requested"}')
+                if 'validator' in log:
+                    v = log['validator']
+                    from mirsym.schema import flag_bits
+                    fl, cp = flag_bits(v.fields[0]), flag_bits(v.fields[1])
+                    if not (fl == flags_all and cp is caps) or deref(log['validated']) is not module:
+                        problems.append(f'validator built with flags {fl} / capabilities {cp} on {type(deref(log["validated"])).__name__}')
+                if 'validator' in log and not log.get('valid_ok'):
+                    if not (out.disc == 1 and out.fields[0].variant == 'ValidationError' and out.fields[0].fields[0] is E2):
+                        problems.append(f'validation error is returned as {out}')
+                    if any(f in calls for f in GEN_FUNCS):
+                        problems.append('generation runs although validation failed')
+                else:
+                    if out.disc != 0:
+                        problems.append(f'accepted module returns {out}')
+                    else:
+                        ok_tokens.append((von, T.canon(out.fields[0].toks), pc))
+            if not (log.get('parse_arg') == src):
+                problems.append(f'parser was handed {log.get("parse_arg")!r} instead of the source text')
+            if problems:
                 ctx.queries['sat'] += 1
                 rep, det = native(ctx, src_text)
-                ctx.report('C17/validation-changes-output', 'enabling validation changes the generated tokens', det, rep, det)
+                ctx.report('C17/' + problems[0].split(':')[0][:40], '; '.join(problems) + f' (validate={von})', det, rep, det)
             else:
                 ctx.queries['unsat'] += 1
+        # validation only gates: identical tokens with validation off / on (any capabilities)
+        if ok_tokens:
+            ref = ok_tokens[0][1]
+            if {v for v, _, _ in ok_tokens} != {True, False}:
+                raise Inconclusive('did not explore both validation settings on the accepting path')
+            for von, tk, pc in ok_tokens[1:]:
+                ctx.queries['discharged'] += 1
+                if tk != ref:
+                    ctx.queries['sat'] += 1
+                    rep, det = native(ctx, src_text)
+                    ctx.report('C17/validation-changes-output', 'enabling validation changes the generated tokens', det, rep, det)
+                else:
+                    ctx.queries['unsat'] += 1
     ctx.vacuity_witness('gate assertions reachable', res[0][0])
     # ---- the four emit_* helpers dispatch parse / validation errors to naga's renderer with the same source and path
     emit = {n: n for n in S.bodies if 'emit_to_' in n}
@@ -183,12 +186,13 @@ def native(ctx, src):
     det = {'checked': 0, 'first': None}
     import glob as _glob
     valid = VALID_EXOTIC + [open(f).read() for f in sorted(_glob.glob('/repo/wgsl_to_wgpu/src/data/**/*.wgsl', recursive=True))]
-    for s_ in valid:
-        base = {'derive_encase_host_shareable': True}
+    for s_, base in [(x, b) for x in valid for b in ({'derive_encase_host_shareable': True},
+                                                      {'derive_bytemuck_vertex': True, 'derive_bytemuck_host_shareable': True, 'derive_serde': True,
+                                                       'matrix_vector_types': 'Glam'})]:
         r0 = ctx.S.oracle.gen(s_, base)
         if 'ok' not in r0:
-            continue              # not an input the generator accepts at all
-        for v in (True, 3, 0, 1, 1 << 20):
+            continue              # not an input the generator accepts at all (under these options)
+        for v in ((True, 3, 0, 1, 1 << 20) if 'derive_encase_host_shareable' in base else (True, 0)):
             r1 = ctx.S.oracle.gen(s_, dict(base, validate=v))
             det['checked'] += 1
             # the real validator with exactly the caller's capability set is the reference for accept / reject
@@ -199,7 +203,7 @@ def native(ctx, src):
             # a capability-restricted validator may reject; an accepting one must not change the text
             elif 'ok' in r0 and 'ok' in r1 and r0['ok'] != r1['ok']:
                 if det['first'] is None:
-                    det['first'] = {'wgsl': s_, 'options': {'validate': v}, 'real': 'output differs between validation off and on'}
+                    det['first'] = {'wgsl': s_, 'options': dict(base, validate=v), 'real': 'output differs between validation off and on'}
             elif 'panic' in r1 or 'panic' in r0:
                 if det['first'] is None and 'Runtime-sized' not in str(r0) + str(r1):
                     det['first'] = {'wgsl': s_, 'options': {'validate': v}, 'real': str(r1)[:200]}
